@@ -244,22 +244,38 @@ def stepTagged (tl : List (Int √ó Int)) (ws : List String) : Option (List (Int √
   | ["tclear"] => some []
   | _ => none
 
+/-- `PoolList<Tagged>` (elements constructed in place by the two-argument `append(A, B)`): the chain model's
+    relinking is the one checked on `PoolList<int>`; here only the value sequence is followed -/
+def stepPoolTagged (ul : List (Int √ó Int)) (ws : List String) : Option (List (Int √ó Int)) :=
+  match ws with
+  | ["uappend", k, t] => do pure (ul ++ [((‚Üê k.toInt?), (‚Üê t.toInt?))])
+  | ["uremove", p] => do
+    let p ‚Üê p.toNat?
+    if p < ul.length then pure (ul.eraseIdx p) else none
+  | ["uremoveBack"] => if ul.isEmpty then none else some ul.dropLast
+  | ["uclear"] => some []
+  | _ => none
+
 def allShown : List Show := [.l 0, .l 1, .p 0, .p 1, .a 0, .a 1]
 
 def line (s : State) (ret : Option Int) (n d : Nat) (sh : List Show) : String :=
   let r := match ret with | some x => toString x | none => "-"
   " | ".intercalate (s!"r={r} n={n} d={d}" :: sh.map (showOne s))
 
-def stepLine (stp : State √ó PtrPair √ó RawLock √ó List (Int √ó Int)) (ws : List String) :
-    (State √ó PtrPair √ó RawLock √ó List (Int √ó Int)) √ó String :=
-  let (st, pp, rl, tl) := stp
+def stepLine (stp : State √ó PtrPair √ó RawLock √ó List (Int √ó Int) √ó List (Int √ó Int)) (ws : List String) :
+    (State √ó PtrPair √ó RawLock √ó List (Int √ó Int) √ó List (Int √ó Int)) √ó String :=
+  let (st, pp, rl, tl, ul) := stp
   if (ws.headD "").startsWith "t" then
     match stepTagged tl ws with
-    | some tl' => ((st, pp, rl, tl'), obsT tl')
+    | some tl' => ((st, pp, rl, tl', ul), obsT tl')
+    | none => (stp, "bad-op")
+  else if (ws.headD "").startsWith "u" then
+    match stepPoolTagged ul ws with
+    | some ul' => ((st, pp, rl, tl, ul'), "u" ++ (obsT ul').drop 1)
     | none => (stp, "bad-op")
   else
   match ws with
-  | ["reset"] => (({}, {}, {}, []), line {} none 0 0 allShown)
+  | ["reset"] => (({}, {}, {}, [], []), line {} none 0 0 allShown)
   | ["dump"] => (stp, line st none 0 0 allShown ++ (if pp.ok then "" else " ptr-diverges") ++ (if rl.ok then "" else " raw-diverges"))
   | _ =>
     match parseOp ws with
@@ -269,10 +285,10 @@ def stepLine (stp : State √ó PtrPair √ó RawLock √ó List (Int √ó Int)) (ws : List
       | some r =>
         let pp' := ptrAdvance pp st r.st op
         let rl' := rawAdvance rl r.st op
-        ((r.st, pp', rl', tl), line r.st r.ret r.allocs r.frees (touched op) ++ (if pp'.ok then "" else " ptr-diverges") ++
+        ((r.st, pp', rl', tl, ul), line r.st r.ret r.allocs r.frees (touched op) ++ (if pp'.ok then "" else " ptr-diverges") ++
           (if rl'.ok then "" else " raw-diverges"))
       | none => (stp, "bad-op")
 
 end Nstd.Seq
 
-def main : IO Unit := Nstd.Common.ioLoop (({}, {}, {}, []) : Nstd.Seq.State √ó Nstd.Seq.PtrPair √ó Nstd.Seq.RawLock √ó List (Int √ó Int)) Nstd.Seq.stepLine
+def main : IO Unit := Nstd.Common.ioLoop (({}, {}, {}, [], []) : Nstd.Seq.State √ó Nstd.Seq.PtrPair √ó Nstd.Seq.RawLock √ó List (Int √ó Int) √ó List (Int √ó Int)) Nstd.Seq.stepLine
